@@ -160,3 +160,10 @@ package transport
 //@ field bufWriteConn.writer immutable NewTransport
 //@ field rawConn.* covered
 //@ field rawConn.Conn immutable NewTransport
+
+// every type with exported methods declares its method set (a type or an exported method added
+// later - something other code can reach through an interface - is reported until it is under contract)
+//@ property C12 C14
+//@ types covered
+//@ methods Options: AddressWithoutHost Apply
+//@ methods Schemes: Add FixScheme Valid ValidURL
